@@ -244,7 +244,21 @@ theorem stepOp_hist (c : Cfg) (s : St) (h : Hist s) (op : Op) : Hist (stepOp c s
   | sub _ _ => exact ⟨h.ok, h.le⟩
   | unsub _ _ => exact ⟨h.ok, h.le⟩
   | setWrite _ => exact ⟨h.ok, h.le⟩
-  | armPong => simp only [stepOp]; split <;> exact ⟨h.ok, h.le⟩
+  | tick =>
+    simp only [stepOp]
+    split
+    · exact ⟨h.ok, h.le⟩
+    · split
+      · split
+        · rename_i heq
+          have h1 := congrArg (·.1.log) heq; have h2 := congrArg (·.1.seq) heq
+          simp only [send_log, send_seq] at h1 h2
+          exact ⟨h1 ▸ h.ok, fun e he => by rw [← h1] at he; rw [← h2]; exact h.le e he⟩
+        · rename_i heq
+          have h1 := congrArg (·.1.log) heq; have h2 := congrArg (·.1.seq) heq
+          simp only [send_log, send_seq] at h1 h2
+          exact ⟨h1 ▸ h.ok, fun e he => by rw [← h1] at he; rw [← h2]; exact h.le e he⟩
+      · exact ⟨h.ok, h.le⟩
   | packet id ok order =>
     simp only [stepOp]
     obtain ⟨l, t, hnd, hlog, hseq⟩ := processPacket_log c s id ok order
